@@ -33,11 +33,16 @@ func HarnessC20() {
 	zzvrt.Assume(zzvrt.And(mn > 0, mn <= 1<<20))
 	// money.json: root object Money{amount: integer, currency: string minLength mn}, with a
 	// local definition Base used through allOf
+	mi := zzvrt.Int()
+	zzvrt.Assume(zzvrt.And(mi > 0, mi <= 1<<20))
 	moneyBase := &schemas.Type{Type: schemas.TypeList{"object"}, Properties: map[string]*schemas.Type{
-		"code": {Type: schemas.TypeList{"string"}, MinLength: mn}}, Required: []string{"code"}}
+		"code":  {Type: schemas.TypeList{"string"}, MinLength: mn},
+		"parts": {Type: schemas.TypeList{"array"}, Items: &schemas.Type{Type: schemas.TypeList{"string"}}, MinItems: mi}}, Required: []string{"code"}}
+	partsSpec := &zzSpec{kind: "array", minItems: mi, items: &zzSpec{kind: "string"}}
 	money := &schemas.Type{Type: schemas.TypeList{"object"}, Properties: map[string]*schemas.Type{
 		"amount": {Type: schemas.TypeList{"integer"}},
 		"tag":    {AllOf: []*schemas.Type{{Ref: "#/$defs/Base"}}},
+		"direct": {Ref: "#/$defs/Base"},
 	}, Required: []string{"amount"}}
 	moneySch := &schemas.Schema{ObjectAsType: (*schemas.ObjectAsType)(money), ID: "https://example.com/money",
 		Definitions: schemas.Definitions{"Base": moneyBase}}
@@ -159,12 +164,30 @@ func HarnessC20() {
 	zzvrt.Assume(zzvrt.Or(zzvrt.DIs(d, "tag/code", zzvrt.KAbsent), zzvrt.DIs(d, "tag/code", zzvrt.KString)))
 	// (the other document's Base has a member id: present or not, it means nothing here)
 	zzvrt.Assume(zzvrt.Or(zzvrt.DIs(d, "tag/id", zzvrt.KAbsent), zzvrt.And(zzvrt.DIs(d, "tag/id", zzvrt.KNumber), zzvrt.DIsInt(d, "tag/id"))))
+	// direct (money.json's Base again, referred to directly): absent, or an object with a valid
+	// code and parts absent or an array of strings, at least mi of them
+	zzvrt.Assume(zzvrt.DIs(d, "tag/parts", zzvrt.KAbsent))
+	noDirect := zzvrt.DIs(d, "direct", zzvrt.KAbsent)
+	zzvrt.Assume(zzvrt.Or(noDirect, zzvrt.DIs(d, "direct", zzvrt.KObject)))
+	if zzvrt.Param("DIRECT", 0) == 0 {
+		zzvrt.Assume(noDirect) // (units that do not own the array check leave the member out)
+	}
+	zzvrt.Assume(zzvrt.DIs(d, "direct/id", zzvrt.KAbsent))
+	dc := zzvrt.DStr(d, "direct/code")
+	zzvrt.Assume(zzvrt.Or(noDirect, zzvrt.And(zzvrt.DIs(d, "direct/code", zzvrt.KString), zzvrt.And(len(dc) >= mn, zzvrt.RuneLen(dc) >= mn))))
+	zzvrt.Assume(zzvrt.Or(zzvrt.DIs(d, "direct/parts", zzvrt.KAbsent), zzvrt.DIs(d, "direct/parts", zzvrt.KArray)))
+	pf := zzValue(d, "direct/parts", partsSpec, zzvrt.Param("N", 2), 0)
+	zzvrt.Assume(zzvrt.Or(zzvrt.DIs(d, "direct/parts", zzvrt.KAbsent), pf.others("arr")))
+	partsOK := zzvrt.Or(noDirect, zzvrt.Or(zzvrt.DIs(d, "direct/parts", zzvrt.KAbsent), pf.arr))
 	_, accepted, ok := zzRunT("C20", hMoney, moneyRoot, "json", d)
 	if !ok {
 		return
 	}
 	s := zzvrt.DStr(d, "tag/code")
-	valid := zzvrt.And(zzvrt.DIs(d, "tag/code", zzvrt.KString), len(s) >= mn)
+	codeOK := zzvrt.And(zzvrt.DIs(d, "tag/code", zzvrt.KString), len(s) >= mn)
+	valid := zzvrt.And(codeOK, partsOK)
+	// C07: the array limit stated in money.json's Base holds in whichever package it landed
+	zzvrt.Check("C07.multi-doc.array-limits-of-each-document-hold", zzvrt.Implies(codeOK, zzvrt.Iff(accepted, partsOK)))
 	zzvrt.Assume(zzvrt.Iff(len(s) >= mn, zzvrt.RuneLen(s) >= mn)) // outside the byte/rune finding
 	zzvrt.Check("C10.ref-keeps-its-document-meaning", zzvrt.Iff(accepted, valid))
 	// C11: the allOf in money.json is the conjunction of ITS document's branches
